@@ -15,6 +15,30 @@ def shared(prop, module, *suffixes, label=None):
     return out
 
 
+def without_clauses(unit, prop, drop_prefixes, label):
+    """The same unit counted under another property without the clauses named (by prefix of the obligation name): e.g. the selection
+    clauses of get_subcommands under C12, while `no section of another subcommand remains` - refuted on the shipped code, a C17
+    known finding - stays C17's."""
+    def filtered(fn):
+        if fn is None:
+            return None
+
+        def run(ctx, st, outcome):
+            real = ctx.oblige
+
+            def oblige(kind, name, formula, **kw):
+                if not name.startswith(tuple(drop_prefixes)):
+                    return real(kind, name, formula, **kw)
+            ctx.oblige = oblige
+            try:
+                return fn(ctx, st, outcome)
+            finally:
+                ctx.oblige = real
+        return run
+
+    return dataclasses.replace(unit, prop=prop, post=filtered(unit.post), raises=filtered(unit.raises), label=(unit.label + "+" + label).lstrip("+"))
+
+
 def only_clauses(unit, prop, kinds=("raises", "pre", "frame"), label="exception-clauses"):
     """The same unit counted under another property for some kinds of its obligations only (e.g. the exception clauses of the type
     arms under C03: which value conforms is C02's clause and its known findings stay there).  The body is executed as before; the
